@@ -17,7 +17,7 @@ func init() { chainOptsByCheck["C03"] = c03Opts }
 // C03 — backtrace reports every backward data flow from a backtrace point, with well-formed traces.
 func C03(tier string) {
 	run := core.NewRun("C03", tier)
-	links := gen.AllLinks(nil, []string{"conc"})
+	links := gen.AllLinks(nil, []string{"conc", "guard"})
 	var chains []gen.Chain
 	switch tier {
 	case "thorough":
